@@ -8,6 +8,8 @@ reuse, across restarts — to every procedure and argument position and compares
 import GoNfsd.Lemmas.FsStep
 import GoNfsd.Lemmas.Fh
 import GoNfsd.Lemmas.Reveal
+import GoNfsd.Gen.Skeleton
+import GoNfsd.Model.Skeleton
 
 namespace GoNfsd.Props.C08
 open GoNfsd.Model.Fs
@@ -174,5 +176,22 @@ theorem a_handle_given_to_another_client_survives_a_crash
 example : ∃ s, GoNfsd.Model.Reveal.run GoNfsd.Model.Reveal.empty
       [.acquire 1 5, .commit 1 [(5, 77)] false false, .release 1 5, .acquire 2 5] = some s ∧
     s.lock 5 = some 2 ∧ s.read 5 = some 77 ∧ s.recovered 5 = none := ⟨_, rfl, rfl, rfl, rfl⟩
+
+/-! ### a handle resolved again after its locks were given back -/
+
+/-- A HANDLE IS NEVER TRADED FOR ITS INODE NUMBER ALONE.  LOOKUP / REMOVE / RMDIR (through `lookupOrdered`) and RENAME
+    give the locks of the inodes they resolved back and lock again BY NUMBER, in ascending order (`lockInodes`: "Caller
+    must revalidate inodes").  In between the object may have been removed and its number reused (`stale_forever`: the
+    generation then differs).  Table regenerated from nfs/*.go on every run: every function that calls `lockInodes`
+    compares generations with the handle afterwards — at least once per such call, `validateRename` (both directories)
+    counted — so a dead handle never resolves to the new owner of its number.  (Seeded change C08o passes
+    `lookupOrdered` the parent's number instead of its handle and drops the comparison.) -/
+theorem handles_are_revalidated_after_locking_by_number :
+    (∀ r ∈ GoNfsd.Gen.Skeleton.relockUses, GoNfsd.Model.Skeleton.relockCheck r = true) ∧
+    (GoNfsd.Gen.Skeleton.relockUses.map (·.1)).contains "nfs.lookupOrdered" = true ∧
+    (GoNfsd.Gen.Skeleton.relockUses.map (·.1)).contains "nfs.NFSPROC3_RENAME" = true ∧
+    (GoNfsd.Gen.Skeleton.relockUses.map (·.1)).contains "nfs.validateRename" = true := by decide
+
+example : GoNfsd.Model.Skeleton.relockCheck ("nfs.lookupOrdered", 1, 0) = false := by decide
 
 end GoNfsd.Props.C08
